@@ -518,7 +518,17 @@ func generate(x *hist, r *hx.Rng, inject int, g, unknownKey int, c15 bool) {
 		rel[i] = []int{100, 100, 95, 80, 50, 20}[r.Intn(6)]
 	}
 	outage := map[int]int{} // validator id -> remaining blocks of outage
+	genesisAt := -1
+	if r.Chance(12) {
+		genesisAt = 2 + r.Intn(6) // export + import between two blocks of the history
+	}
 	for b := 0; b < nblocks && !x.dead; b++ {
+		if b == genesisAt && len(x.withStatus(stActive)) > 0 {
+			x.genesis(nil)
+			if x.dead {
+				break
+			}
+		}
 		// block time: whole seconds plus a nanosecond part; in a third of the blocks the time is put on (or
 		// 1 ns / half a second / 999 ms / 1 s around) a stored deadline: the end of an inactivity period or
 		// of an unjail window -- and the corresponding operation is then attempted in that block
